@@ -1,5 +1,7 @@
 package nfa
 
+import "sync"
+
 // BoundedBacktracker implements a bounded backtracking regex matcher.
 // It uses generation-based visited tracking with uint8 for (state, position) pairs,
 // providing 4x memory efficiency over uint32 tracking while maintaining O(1) reset.
@@ -26,9 +28,15 @@ type BoundedBacktracker struct {
 	// Default: 256M entries = 256MB memory, handles 6MB+ inputs for 35-state patterns
 	maxVisitedSize int
 
-	// internalState is used by legacy non-thread-safe methods.
-	// For concurrent usage, use *WithState methods with external BacktrackerState.
+	// internalState holds the configuration (Longest) applied by the methods that
+	// do not take an explicit state (IsMatch, IsMatchAnchored, Search, SearchAt).
+	// Its visited table is never used: a BoundedBacktracker is shared by every
+	// goroutine that searches with the compiled pattern, so those methods borrow a
+	// private BacktrackerState from statePool for the duration of the call.
 	internalState BacktrackerState
+
+	// statePool recycles the states borrowed by the stateless methods.
+	statePool sync.Pool
 }
 
 // BacktrackerState holds mutable per-search state for BoundedBacktracker.
@@ -105,6 +113,16 @@ func NewBoundedBacktrackerSmall(nfa *NFA) *BoundedBacktracker {
 // This should be pooled via sync.Pool for concurrent usage.
 func NewBacktrackerState() *BacktrackerState {
 	return &BacktrackerState{}
+}
+
+// borrowState returns a private state configured like internalState.
+func (b *BoundedBacktracker) borrowState() *BacktrackerState {
+	state, _ := b.statePool.Get().(*BacktrackerState)
+	if state == nil {
+		state = NewBacktrackerState()
+	}
+	state.Longest = b.internalState.Longest
+	return state
 }
 
 // SetLongest enables or disables leftmost-longest match semantics on internal state.
@@ -194,10 +212,12 @@ func (b *BoundedBacktracker) shouldVisit(s *BacktrackerState, state StateID, pos
 
 // IsMatch returns true if the pattern matches anywhere in the haystack.
 // This is optimized for boolean-only matching.
-// This method uses internal state and is NOT thread-safe.
-// For concurrent usage, use IsMatchWithState.
+// It runs on a private state borrowed from an internal pool and is safe for
+// concurrent use.
 func (b *BoundedBacktracker) IsMatch(haystack []byte) bool {
-	return b.IsMatchWithState(haystack, &b.internalState)
+	state := b.borrowState()
+	defer b.statePool.Put(state)
+	return b.IsMatchWithState(haystack, state)
 }
 
 // IsMatchWithState returns true if the pattern matches anywhere in the haystack.
@@ -219,9 +239,12 @@ func (b *BoundedBacktracker) IsMatchWithState(haystack []byte, state *Backtracke
 }
 
 // IsMatchAnchored returns true if the pattern matches at the start of haystack.
-// This method uses internal state and is NOT thread-safe.
+// It runs on a private state borrowed from an internal pool and is safe for
+// concurrent use.
 func (b *BoundedBacktracker) IsMatchAnchored(haystack []byte) bool {
-	return b.IsMatchAnchoredWithState(haystack, &b.internalState)
+	state := b.borrowState()
+	defer b.statePool.Put(state)
+	return b.IsMatchAnchoredWithState(haystack, state)
 }
 
 // IsMatchAnchoredWithState returns true if the pattern matches at the start of haystack.
@@ -237,9 +260,12 @@ func (b *BoundedBacktracker) IsMatchAnchoredWithState(haystack []byte, state *Ba
 
 // Search finds the first match in the haystack.
 // Returns (start, end, true) if found, (-1, -1, false) otherwise.
-// This method uses internal state and is NOT thread-safe.
+// It runs on a private state borrowed from an internal pool and is safe for
+// concurrent use.
 func (b *BoundedBacktracker) Search(haystack []byte) (int, int, bool) {
-	return b.SearchAtWithState(haystack, 0, &b.internalState)
+	state := b.borrowState()
+	defer b.statePool.Put(state)
+	return b.SearchAtWithState(haystack, 0, state)
 }
 
 // SearchWithState finds the first match in the haystack.
@@ -253,9 +279,12 @@ func (b *BoundedBacktracker) SearchWithState(haystack []byte, state *Backtracker
 // Returns (start, end, true) if found, (-1, -1, false) otherwise.
 // This is used by FindAll* operations for efficient iteration.
 // In longest mode, finds the longest match at the leftmost position.
-// This method uses internal state and is NOT thread-safe.
+// It runs on a private state borrowed from an internal pool and is safe for
+// concurrent use.
 func (b *BoundedBacktracker) SearchAt(haystack []byte, at int) (int, int, bool) {
-	return b.SearchAtWithState(haystack, at, &b.internalState)
+	state := b.borrowState()
+	defer b.statePool.Put(state)
+	return b.SearchAtWithState(haystack, at, state)
 }
 
 // SearchAtWithState finds the first match starting from position 'at'.
